@@ -12,11 +12,19 @@ Quantification: every field `K` with involution and `2 ≠ 0`, every dimension, 
 parameters, set of perturbation terms at arbitrary multi-orders, `fully_diagonalize` absent / tuple / dict of masks,
 both settings of the two-block optimisation and every commuting-block pattern — all problems satisfying the decidable
 predicate `Accepted` (what `block_diagonalize` accepts on its exact Hermitian path).
+
+Tolerance.  The model decides "equal unperturbed energies" as the code does, with `atol` (`equalEigs`), and a fully diagonalised block keeps together the
+levels connected by steps below `atol` (`sameLevel` = `Closure.closure`, the model of `_transitive_closure`).  `Accepted` used to carry the clause
+`comm_trans` — the kept part of a block the algorithm treats as commuting is transitive — as a hypothesis the proof of `B`/`Yadj` had forced; the code
+of that time decided "equal within atol" pair by pair and did *not* meet it for chains of close levels (defect D37: the hypothesis marked the spot).  With
+the repaired code and the model of its closure the clause is a theorem (`C01_kept_pattern_transitive`), and `C01_chains_of_close_levels` states C01 for
+`AcceptedCore` = `Accepted` without it.
 -/
 import PymaVerif.Proofs.Accepted
 import PymaVerif.Proofs.DriverSound
 import PymaVerif.Proofs.DriverTotal
 import PymaVerif.Proofs.Witness
+import PymaVerif.Proofs.LevelsThm
 
 namespace Pyma
 namespace Props
@@ -53,11 +61,28 @@ theorem C01_driver_total (h : p.Accepted) (x : String) (hx : x ∈ mainNames) (i
     ∃ fuel v c', getElem main p.env fuel x idx ∅ = .ok (v, c') :=
   Problem.driver_total h x hx idx
 
+omit [LawfulThresholds K] in
+/-- **C01** the transitivity clause of `Accepted` (the kept part of a block whose masks the algorithm may treat as commuting is closed under multiplication) is
+not a condition on the input: a fully diagonalised block keeps together the levels connected by steps below `atol` (the code's `_transitive_closure` of
+"equal within atol"), which is an equivalence whatever the energies and the tolerance -/
+theorem C01_kept_pattern_transitive (hev : AbsLtEven K) (a b c : Fin p.d) (hc : p.commuting (p.blk a.val) = true)
+    (hab : p.keptE a.val b.val = true) (hcb : p.keptE c.val b.val = true) : p.keptE a.val c.val = true :=
+  comm_trans_holds hev a b c hc hab hcb
+
+/-- **C01** without the transitivity clause: `U†·H·U = H̃` and the zeros on the eliminated entries for every problem that meets the remaining clauses
+(`AcceptedCore`), in particular when levels are equal within `atol` only through a chain of neighbours -/
+theorem C01_chains_of_close_levels (hev : AbsLtEven K) (h : p.AcceptedCore) (h2 : (2 : K) ≠ 0) :
+    p.sr "U†" * p.sr "H" * p.sr "U" = p.sr "H_tilde" ∧
+      ∀ (m : Fin p.nparams →₀ ℕ) (a b : Fin p.d), p.keptE a.val b.val = false → coeff m (p.sr "U†" * p.sr "H" * p.sr "U") a b = 0 :=
+  ⟨Problem.C01 (h.accepted hev) h2, fun m a b hk => Problem.C01_elim (h.accepted hev) h2 m a b hk⟩
+
 /-! Non-vacuity: concrete accepted problems over ℚ — three 1×1 blocks; two blocks with a partial mask on one of them and a
 degenerate kept pair; the default two-block call (optimised flags on); a single block with two parameters. -/
 example : w3.sr "U†" * w3.sr "H" * w3.sr "U" = w3.sr "H_tilde" := C01_similarity w3_accepted (by norm_num)
 example : wd.sr "U†" * wd.sr "H" * wd.sr "U" = wd.sr "H_tilde" := C01_similarity wd_accepted (by norm_num)
 example : w2.sr "U†" * w2.sr "H" * w2.sr "U" = w2.sr "H_tilde" := C01_similarity w2_accepted (by norm_num)
+-- a chain of levels 0, 7, 14 under `atol = 10` in a fully diagonalised block: the ends are farther apart than `atol` and kept together all the same
+example : wchain.sr "U†" * wchain.sr "H" * wchain.sr "U" = wchain.sr "H_tilde" := (C01_chains_of_close_levels absLtEven_rat wchain_core (by norm_num)).1
 example : w1.sr "U†" * w1.sr "H" * w1.sr "U" = w1.sr "H_tilde" := C01_similarity w1_accepted (by norm_num)
 example : wd.keptE 0 1 = false ∧ wd.keptE 2 3 = true ∧ wd.twoBlockOptimized = false ∧ w2.twoBlockOptimized = true := by
   decide +kernel
